@@ -229,8 +229,20 @@ fn run(ctx: &mut Ctx) {
         ctx.eval();
         let nt = 2 + rng.usize(3);
         let tracks = super::c14::fitted_tracks(rng, nt);
+        // the minimiser clause is quantified over helices with centre within +-3 m and radius 0.03..5 m; a fit that went
+        // astray (radius of millimetres, or negative) is only held to the range / NaN clause
+        let in_range = |p: &[f64; 6]| (0.03..=5.0).contains(&p[3]) && p[0].abs() <= 3.0 && p[1].abs() <= 3.0 && p[2].abs() <= 3.0;
         for (tr, first, last) in &tracks {
             let p = vh::helix_params(tr);
+            for (name, t) in [("t_inner", tr.t_inner()), ("t_outer", tr.t_outer())] {
+                if t.is_nan() || !(-PI..=PI).contains(&t) {
+                    ctx.violation("closest-approach parameter outside [-pi, pi] or NaN", format!("{} of a fitted track: {} (helix {:?})", name, t, p), json!({"helix": p}));
+                }
+            }
+            if !in_range(&p) {
+                ctx.count("fitted tracks outside the quantified helix ranges (range / NaN clause only)");
+                continue;
+            }
             check_one(ctx, p, *first, tr.t_inner(), "t_inner of a fitted track");
             check_one(ctx, p, *last, tr.t_outer(), "t_outer of a fitted track");
             ctx.count("fitted tracks checked (t_inner, t_outer)");
@@ -247,6 +259,12 @@ fn run(ctx: &mut Ctx) {
                 let pos = v.position;
                 let sp = SpacePoint { r: pos.x.hypot(pos.y), phi: pos.y.atan2(pos.x), z: pos.z };
                 for (tr, t) in &v.tracks {
+                    if t.is_nan() || !(-PI..=PI).contains(t) {
+                        ctx.violation("closest-approach parameter outside [-pi, pi] or NaN", format!("VertexInfo.tracks parameter {}", t), json!({"helix": vh::helix_params(tr)}));
+                    }
+                    if !in_range(&vh::helix_params(tr)) {
+                        continue;
+                    }
                     check_one(ctx, vh::helix_params(tr), sp, *t, "VertexInfo.tracks parameter");
                     ctx.count("primary-vertex track parameters checked");
                 }
